@@ -125,7 +125,7 @@ Section Inv.
     apply (GI_result fut s _ (p_id p) SApply a u gen (EApply g (p_id p) (ast_of a)) lt); try assumption.
     - apply IN. left. reflexivity.
     - destruct ALT as [[[-> | ->] _]|[[-> _]|[-> _]]]; discriminate.
-    - eapply snap_plain. exact FS.
+    - eapply Forall_snap2_shape; [|exact FS]. intros c it [r [ok [-> _]]]. apply plain_req.
     - apply cache_apply_one.
     - left. split; [reflexivity|]. split; [exact Ha|]. exists g. reflexivity.
   Qed.
